@@ -34,6 +34,7 @@ def main(argv):
     try:
         import others
         table.update(others.TABLE)
+        queuefam.EXTRA_PLANS["C12"] = [others.LIMITS]
     except ImportError:
         pass
     if prop not in table:
